@@ -13,7 +13,7 @@ from sim import world as Wd
 ID = 'C02'
 LEVEL = 'exploration'
 ENGINE = 'history'
-BUDGET = {'quick': 1500, 'thorough': 150000}
+BUDGET = {'quick': 5000, 'thorough': 150000}
 WALL = {'quick': 45, 'thorough': 1500}
 RULE = ('histories put x; (other puts / restores / purges of other entries / removal of x\'s parent directories)*; restore x, with restore '
         'run from the original directory, an ancestor, / or given the path; every --sort; home, .Trash/$uid, .Trash-$uid and --trash-dir '
